@@ -5,7 +5,11 @@ Proof: lean/Props/C19.lean (model lean/PydapModel/Ssf.lean).  Tie: (a) what the 
 denominator) vs `Ssf.meanArr/meanGrid` chains; (c) rows kept by bounds(...) vs `Ssf.bounds`; (d) the id string built by
 the client's function proxy vs `Ssf.parseCall`.  Oracle (no model): ServerSideFunctions(BaseHandler(ds)) vs
 BaseHandler(ds) byte for byte on function-free requests; mean vs exact integer sums / axis lengths computed from the
-source; bounds vs a Python filter; client functions.mean(...) vs the raw request."""
+source; bounds vs a Python filter; client functions.mean(...) vs the raw request.  Round 6: (e) whole answers of
+ServerSideFunctions(BaseHandler(ds)) for calls beside ordinary projection items vs `Ssf.ssfHandle` (`ssf-handle`), oracle: the
+ordinary variables are the bare handler's answer to the request without the calls, the results follow in call order and are numpy
+means; (f) the function tables of several applications of one process vs `Ssf.buildApps` (`ssf-tables`), oracle: stock + own
+keywords by object identity."""
 import itertools
 from fractions import Fraction
 
@@ -671,6 +675,388 @@ def session_checks(ctx, tier, rng):
 session_checks.history = []
 
 
+# ------------------------------------------------------------------------------------------------ (e) round 6
+# the function branch past the routing: calls beside ordinary projection items
+MEAN_DT = ("i4", "u4", "f8", "f4")
+
+
+def mean_targets(spec, scale=True):
+    """[(id, shape, base)] of the arrays a `mean` can be asked of; with `scale` their values are multiplied by the
+    number of their elements, so that every (nested) mean is an integer (the model's values are integers)"""
+    out = []
+
+    def visit(path, b):
+        if b["dt"] in MEAN_DT and b["shape"] and all(b["shape"]):
+            if scale:
+                n = int(np.prod(b["shape"]))
+                b["data"] = [x * n for x in b["data"]]
+            out.append((".".join(path + [b["name"]]), list(b["shape"]), b))
+
+    for v in spec["vars"]:
+        if v["k"] == "b":
+            visit([], v)
+        elif v["k"] == "st":
+            for m in v["members"]:
+                if m["k"] == "st":
+                    for b in m["members"]:
+                        visit([v["name"], m["name"]], b)
+                else:
+                    visit([v["name"]], m)
+        elif v["k"] == "g":
+            n0 = len(out)
+            visit([v["name"]], v["array"])
+            if len(out) > n0:
+                out.append((v["name"], list(v["array"]["shape"]), v))      # the grid itself
+    return out
+
+
+def gen_fcall(rng, targets):
+    """one call: {"text", "id", "axes", "valid"}"""
+    r = rng.random()
+    if not targets or r < 0.03:
+        return {"text": rng.choice(["mean(zz,0)", "nofun(1)", "mean()", "mean(1,0)"]), "id": None, "axes": [], "valid": False}
+    tid, shape, _ = rng.choice(targets)
+    rank = len(shape)
+    axes, text, left, valid = [], tid, rank, True
+    for _ in range(rng.randint(1, min(rank, 3))):
+        k = rng.randrange(left)
+        if rng.random() < 0.025:
+            k, valid = left, False          # no such axis
+        axes.append(k)
+        text = "mean(%s)" % text if (k == 0 and rng.random() < 0.15) else "mean(%s,%d)" % (text, k)
+        left -= 1
+        if not valid:
+            break
+    return {"text": text, "id": tid, "axes": axes, "valid": valid}
+
+
+def split_query(q):
+    """(projection items, selection text) of a generated function-free constraint"""
+    first, _, rest = q.partition("&")
+    if any(c in first for c in "<>="):
+        return [], q
+    items, cur, depth = [], "", 0
+    for ch in first:
+        if ch == "," and depth == 0:
+            items.append(cur)
+            cur = ""
+            continue
+        depth += ch == "("
+        depth -= ch == ")"
+        cur += ch
+    if cur:
+        items.append(cur)
+    return items, rest
+
+
+def join_query(items, sel):
+    return ",".join(items) + ("&" + sel if sel else "")
+
+
+class NotIntegral(Exception):
+    pass
+
+
+def result_sexp(var):
+    """a variable returned by a server-side function, in the model's notation"""
+    from pydap.lib import NUMPY_TO_DAP2_TYPEMAP
+    from pydap.model import BaseType, GridType
+
+    def base(b):
+        data = np.asarray(b.data)
+        vals = []
+        for x in data.reshape(-1):
+            if not float(x).is_integer():
+                raise NotIntegral()
+            vals.append(str(int(x)))
+        return "(b %s %s (%s) (%s) (%s))" % (G.hx(b.name), G.hx(NUMPY_TO_DAP2_TYPEMAP[data.dtype.char]), " ".join(map(str, data.shape)),
+                                             " ".join(G.hx(d) for d in b.dims), " ".join(vals))
+    if isinstance(var, GridType):
+        return "(g %s %s (%s))" % (G.hx(var.name), base(var.array), " ".join(base(m) for m in var.maps.values()))
+    if isinstance(var, BaseType):
+        return base(var)
+    raise NotIntegral()
+
+
+class EvalRecorder(object):
+    """spy on wsgi/ssf.py `eval_function`: the top-level calls the middleware evaluates and what they return"""
+
+    def __enter__(self):
+        import pydap.wsgi.ssf as ssf
+        self.ssf, self.real, self.depth, self.seen = ssf, ssf.eval_function, 0, []
+
+        def spy(dataset, function, functions):
+            self.depth += 1
+            try:
+                out = self.real(dataset, function, functions)
+            except Exception as e:
+                self.depth -= 1
+                if self.depth == 0:
+                    self.seen.append((function, None, type(e).__name__))
+                raise
+            self.depth -= 1
+            if self.depth == 0:
+                try:
+                    self.seen.append((function, result_sexp(out), None))
+                except NotIntegral:
+                    self.seen.append((function, None, "not-integral"))
+            return out
+        ssf.eval_function = spy
+        return self
+
+    def __exit__(self, *a):
+        self.ssf.eval_function = self.real
+
+
+def source_mean(spec, call):
+    """numpy on the generated source: (name, kind, shape, values of the array, [(map name, values)])"""
+    tid, axes = call["id"], call["axes"]
+    by = {t[0]: t for t in mean_targets(spec, scale=False)}
+    _, shape, obj = by[tid]
+    b = obj["array"] if obj["k"] == "g" else obj
+    arr = np.array(b["data"], dtype="f8").reshape(b["shape"])
+    maps = [(m["name"], [float(x) for x in m["data"]]) for m in obj["maps"]] if obj["k"] == "g" else []
+    for k in axes:
+        arr = arr.mean(axis=k)
+        if maps:
+            del maps[k]
+    return tid.split(".")[-1], obj["k"], list(np.shape(arr)), [float(x) for x in np.asarray(arr).reshape(-1)], maps
+
+
+def top_names(decl):
+    return [e[1] for e in decl]
+
+
+def entry_leaves(e):
+    return G.decl_leaves([e])
+
+
+def split_values(decl, vals):
+    """values per top-level entry (sequences: all their values)"""
+    out, pos = [], 0
+    for i, e in enumerate(decl):
+        if e[0] == "sq":
+            return None         # the number of records is not in the declaration: callers compare whole prefixes
+        n = sum(int(np.prod(l[2])) if l[2] else 1 for l in entry_leaves(e))
+        out.append(vals[pos:pos + n])
+        pos += n
+    return out
+
+
+def decode_answer(res):
+    head, _, payload = res["body"].partition(b"Data:\n")
+    _, decl, _ = G.parse_dds(head.decode("ascii"))
+    return decl, G.decode_dods_values(decl, payload)
+
+
+def judge_beside(BaseHandler, SSF, spec, items, calls, sel, order):
+    """the oracle, without the model.  `order`: the projection as a list of ("o", i) / ("c", j).
+    -> (verdict tag, None) or (tag, (what, observed, expected))"""
+    ds = G.build(spec)
+    q = join_query([items[i] if k == "o" else calls[i]["text"] for k, i in order], sel)
+    r = G.run_request(SSF(BaseHandler(ds)), "/d.dods", q)
+    if r["exc"]:
+        return "escaped", ("an exception leaves the middleware", r["exc"], "an answer")
+    any_invalid = any(not c["valid"] for c in calls)
+    # the handler's own answer to the request without the calls (without ordinary items: to the selection alone, which
+    # is the inner request of the middleware)
+    bare = G.run_request(BaseHandler(G.build(spec)), "/d.dods", join_query(items, sel) if items else sel) if (items or sel) else None
+    bare_ok = bare is None or (bare["status"] == 200 and not bare["body_exc"])
+    if any_invalid or not bare_ok:
+        if r["status"] == 200:
+            return "should-fail", ("a request with a failing call / a failing ordinary item is answered 200", q,
+                                   "error document (the handler answers the request without the calls with %s)" % (bare["status"] if bare else "-"))
+        return "error-both" if not bare_ok else "error-call", None
+    if r["status"] != 200 or r["body_exc"]:
+        return "should-answer", ("valid ordinary items beside valid calls are not answered", (r["body"] or b"")[-200:].decode("utf-8", "replace"),
+                                 "200 (the handler answers the request without the calls)")
+    try:
+        decl, vals = decode_answer(r)
+    except Exception as e:
+        return "undecodable", ("the answer does not decode", "%s: %s" % (type(e).__name__, e), "a data response")
+    bdecl, bvals = decode_answer(bare) if items else ([], [])
+    names = top_names(bdecl)
+    # a result that has the name of a constructor already in the answer is merged into it: outside the oracle
+    taken = list(names)
+    for c in [calls[i] for k, i in order if k == "c"]:
+        nm, kind, _, _, _ = source_mean(spec, c)
+        if kind == "g" and c["id"].count(".") == 0 and nm in taken:      # taken by an ordinary variable or an earlier result
+            return "merge", None
+        taken.append(nm)
+    if decl[:len(bdecl)] != bdecl or vals[:len(bvals)] != bvals:
+        return "ordinary-differ", ("the ordinary variables beside the calls are not what the handler serves without the calls",
+                                   [decl[:len(bdecl)], vals[:12]], [bdecl, bvals[:12]])
+    want = []
+    for c in [calls[i] for k, i in order if k == "c"]:
+        nm, kind, shp, arr, maps = source_mean(spec, c)
+        if nm in names:
+            continue            # its name is taken: not in the answer
+        names.append(nm)
+        want.append((nm, kind if c["id"].count(".") == 0 or kind == "b" else "b", shp, arr, maps))
+    tail, tvals = decl[len(bdecl):], vals[len(bvals):]
+    got_names = top_names(tail)
+    if got_names != [w[0] for w in want]:
+        return "result-order", ("the results are not appended in the order of the calls", got_names, [w[0] for w in want])
+    pos = 0
+    for e, (nm, kind, shp, arr, maps) in zip(tail, want):
+        leaves = entry_leaves(e)
+        n = sum(int(np.prod(l[2])) if l[2] else 1 for l in leaves)
+        got = [float(x) for x in tvals[pos:pos + n]]
+        pos += n
+        exp = arr + [x for _, mv in maps for x in mv]
+        shapes = [list(l[2]) for l in leaves]
+        exp_shapes = [shp] + [[len(mv)] for _, mv in maps]
+        if shapes != exp_shapes or len(got) != len(exp) or any(abs(a - b) > 1e-9 * max(1.0, abs(b)) for a, b in zip(got, exp)):
+            return "result-value", ("a result beside ordinary items is not the mean of the source", [shapes, got[:12]], [exp_shapes, exp[:12]])
+    return "ok", None
+
+
+def handle_checks(ctx, tier, rng):
+    BaseHandler, SSF = load()
+    cases = []
+    n = ctx.budget(130, 1500)
+    for _ in range(n):
+        spec = G.gen_dataset(rng, strings=rng.random() < 0.7)
+        targets = mean_targets(spec)
+        sx = G.ds_sexp(spec)
+        q0, _exp = G.gen_valid_ce(rng, spec)
+        fault = None
+        if rng.random() < 0.15:
+            fault = rng.choice(["unknown-var", "over-long", "inverted", "out-of-range", "too-many-index", "nested-path", "negative",
+                                "non-numeric", "repeated-item"])
+            q0 = G.inject_fault(rng, spec, q0, fault)
+            if any(ord(ch) > 126 or ord(ch) < 33 or ch in "#()" for ch in q0):
+                continue
+        items, sel = split_query(q0)
+        if rng.random() < 0.25:
+            items = items[:1]
+        calls = [gen_fcall(rng, targets) for _ in range(rng.choice([1, 1, 1, 2, 2, 3]))]
+        if targets and rng.random() < 0.2:
+            # a call on the very variable an ordinary item slices (functions see the source, not the slice)
+            for it in items:
+                hit = [t for t in targets if it.split("[")[0] == t[0]]
+                if hit:
+                    calls[0] = gen_fcall(rng, hit)
+                    break
+        order = [("o", i) for i in range(len(items))]
+        for j in range(len(calls)):
+            order.insert(rng.randint(0, len(order)), ("c", j))
+        q = join_query([items[i] if k == "o" else calls[i]["text"] for k, i in order], sel)
+        case = {"kind": "beside", "dataset": sx, "items": items, "calls": calls, "sel": sel, "order": [list(o) for o in order], "query": q}
+        tag, fail = judge_beside(BaseHandler, SSF, spec, items, calls, sel, order)
+        if fail:
+            ctx.oracle_fail(fail[0], case, fail[1], fail[2], size=len(q))
+        where = "only" if not items else "+".join(sorted({"first" if order[0][0] == "c" else "", "last" if order[-1][0] == "c" else "",
+                                                         "middle" if any(k == "c" for k, _ in order[1:-1]) else ""} - {""}))
+        ctx.count(("beside", sx, q), True, tag="beside|calls%d|%s|%s%s%s|%s" % (
+            len(calls), where, "sel" if sel else "nosel", "|hyperslab" if "[" in ",".join(items) else "", "|fault:" + fault if fault else "", tag),
+            sample={"query": q, "verdict": tag})
+        ds = G.build(spec)
+        for ext in rng.sample(["dds", "dods", "ascii"], 2):
+            with EvalRecorder() as rec:
+                res = G.run_request(SSF(BaseHandler(ds)), "/d." + ext, q)
+            if any(err == "not-integral" for _, _, err in rec.seen):
+                ctx.tags["beside-model:skipped (a result is not integer-valued)"] += 1
+                continue
+            results = " ".join("(%s %s)" % (G.hx(t), sx_) for t, sx_, err in rec.seen if sx_ is not None)
+            cases.append(("ssf-handle %s %s %s (%s)" % (sx, G.hx("/d." + ext), G.hx(q), results), c15.canon_impl(res), dict(case, ext=ext)))
+    outs = common.run_driver([c[0] for c in cases])
+    adj = []
+    for (line, impl, meta), mod in zip(cases, outs):
+        if mod == "answered" and not impl.startswith("escaped") and not impl.startswith("status"):
+            ctx.tags["beside-model:unresolved"] += 1
+            impl = "answered"
+        else:
+            ctx.tags["beside-model:resolved|" + impl.split(":")[0]] += 1
+        adj.append((line, impl, meta))
+    ctx.correspond("ServerSideFunctions.handle past the routing: whole answer for calls beside ordinary items", adj)
+
+
+# ------------------------------------------------------------------------------------------------ (f) round 6
+# per-application function tables
+TABLE_NAMES = ["mean", "bounds", "f", "g"]
+
+
+def make_decoy(fid):
+    """a keyword function: answers every call with the one-element variable `decoy` = its own id"""
+    from pydap.model import BaseType
+
+    def fn(dataset, *args, _fid=fid):
+        return BaseType("decoy", np.array([float(_fid)]))
+    return fn
+
+
+def table_checks(ctx, tier, rng):
+    BaseHandler, SSF = load()
+    import pydap.wsgi.ssf as ssf
+    from pydap.model import BaseType, DatasetType
+    cases = []
+    n = ctx.budget(120, 1200)
+    for h in range(n):
+        stock_before = ssf.load_functions()
+        stock_names = list(stock_before.keys())
+        ids = {id(f): i for i, f in enumerate(stock_before.values())}
+        keep = list(stock_before.values())
+        kws, apps, next_id = [], [], 100
+        src = [rng.randint(-20, 20) for _ in range(rng.randint(1, 5))]
+        for _ in range(rng.randint(1, 5)):
+            kw = {}
+            for nm in rng.sample(TABLE_NAMES, rng.choice([0, 0, 1, 1, 2, 3])):
+                fid = next_id
+                next_id += 1
+                fn = make_decoy(fid)
+                ids[id(fn)] = fid
+                keep.append(fn)
+                kw[nm] = fn
+            kws.append(kw)
+            ds = DatasetType("d")
+            ds["a"] = BaseType("a", np.array(src, dtype="i4"))
+            apps.append(SSF(BaseHandler(ds), **kw))
+        again = ssf.load_functions()
+        queries = [(rng.randrange(len(apps)), rng.choice(TABLE_NAMES + ["density"])) for _ in range(6)]
+        case = {"kind": "tables", "kws": [{k: ids[id(f)] for k, f in kw.items()} for kw in kws], "queries": [list(q_) for q_ in queries], "src": src}
+
+        def show(t):
+            return "(%s)" % " ".join("(%s %s)" % (G.hx(k), ids.get(id(f), "foreign")) for k, f in t.items())
+        impl = "%s | %s | %s" % (" ".join(show(a.functions) for a in apps), show(again),
+                                 " ".join(str(ids.get(id(apps[i].functions[nm]), "foreign")) if nm in apps[i].functions else "none" for i, nm in queries))
+        line = "ssf-tables (%s) (%s) (%s)" % (" ".join("(%s %d)" % (G.hx(k), i) for i, k in enumerate(stock_names)),
+                                             " ".join("(%s)" % " ".join("(%s %d)" % (G.hx(k), ids[id(f)]) for k, f in kw.items()) for kw in kws),
+                                             " ".join("(%d %s)" % (i, G.hx(nm)) for i, nm in queries))
+        cases.append((line, impl, case))
+        ok, obs, exp = judge_tables(ssf, apps, kws, stock_before, again, src)
+        if not ok:
+            ctx.oracle_fail("the function table of an application is not the stock functions plus its own keyword functions", case, obs, exp,
+                            size=sum(len(kw) for kw in kws) + len(kws))
+        ctx.count(("tables", repr(case["kws"])), True, tag="tables|apps%d|%s" % (len(apps), "override-stock" if any(k in stock_names for kw in kws for k in kw) else "new-names-only" if any(kws) else "defaults"))
+    ctx.correspond("function tables of the applications of one process (ServerSideFunctions.__init__)", cases)
+
+
+def judge_tables(ssf, apps, kws, stock_before, again, src):
+    """each instance's table = stock ∪ own keywords; load_functions() unchanged; a default instance still computes the mean"""
+    for i, (a, kw) in enumerate(zip(apps, kws)):
+        want = dict(stock_before)
+        want.update(kw)
+        if list(a.functions.keys()) != list(want.keys()) or any(a.functions[k] is not want[k] for k in want):
+            return False, "application %d: %s" % (i, sorted((k, getattr(f, "__module__", "?")) for k, f in a.functions.items() if f is not want.get(k))), \
+                "stock functions + its own keywords %s" % sorted(kw)
+    if list(again.keys()) != list(stock_before.keys()) or any(again[k] is not stock_before[k] for k in again):
+        return False, "load_functions() afterwards: %s" % sorted(again), "the stock functions %s" % sorted(stock_before)
+    for i, (a, kw) in enumerate(zip(apps, kws)):
+        r = G.run_request(a, "/d.dods", "mean(a,0)")
+        try:
+            decl, vals = decode_answer(r)
+        except Exception as e:
+            return False, "application %d mean(a,0): %s" % (i, type(e).__name__), "a data response"
+        if "mean" in kw:
+            want_v, want_n = [float(kw["mean"].__kwdefaults__["_fid"])], "decoy"
+        else:
+            want_v, want_n = [float(np.mean(np.array(src, dtype="i4")))], "a"
+        if [e[1] for e in decl] != [want_n] or [float(v) for v in vals] != want_v:
+            return False, "application %d mean(a,0) -> %s %s" % (i, [e[1] for e in decl], vals[:4]), "%s %s" % (want_n, want_v)
+    return True, None, None
+
+
 def explore(ctx, tier, search=False):
     sfx = "-search" if search else ""
     transparency(ctx, tier, ctx.rng("transparency" + sfx))
@@ -678,6 +1064,8 @@ def explore(ctx, tier, search=False):
     bounds_checks(ctx, tier, ctx.rng("bounds" + sfx))
     proxy_tree_checks(ctx, tier, ctx.rng("proxytree" + sfx))
     session_checks(ctx, tier, ctx.rng("session" + sfx))
+    handle_checks(ctx, tier, ctx.rng("beside" + sfx))
+    table_checks(ctx, tier, ctx.rng("tables" + sfx))
 
 
 def run(ctx):
@@ -686,11 +1074,20 @@ def run(ctx):
                 "1..3 (extents 1..4, six dtypes incl. Byte 0..255, integer-valued), every valid axis, nesting depth 1..3, alone or beside an "
                 "ordinary projection, default axis, through the raw request and through the client's function proxy; (c) "
                 "sequences of 1..5 Int32 columns with X/Y/Z axis attributes (either case), intervals incl. min=max and empty "
-                "results, call in selection / projection position / beside a column projection; distinct by the whole case")
+                "results, call in selection / projection position / beside a column projection; (e) handler_gen datasets and "
+                "valid CEs (15 % with an injected item fault) with 1..3 mean calls (nested, default / invalid axis, unknown names; on "
+                "top-level arrays, structure members, nested members, grids, grid arrays) inserted first / middle / last / alone, "
+                "whole answers for two of dds/dods/ascii; (f) histories of 1..5 ServerSideFunctions constructions with keyword "
+                "tables over {mean,bounds,f,g}; distinct by the whole case")
     ctx.assumptions = ["np.mean on small integers: sums are exact in float64, so mean = sum/n is compared exactly for one "
                        "level and to 1e-9 relative for nested calls (inner means are rounded before the outer sum)",
                        "the time arguments of bounds (T axis, needs the optional `coards` package) are outside the model and the generator",
-                       "transparency is proved for constraints parse_ce accepts (the property's own quantifier)"]
+                       "transparency is proved for constraints parse_ce accepts (the property's own quantifier)",
+                       "(e) the values of the arrays a mean is asked of are multiplied by their element count, so that every (nested) "
+                       "mean is an integer (the model's values are integers); the model's evaluator is the table of results recorded "
+                       "by a spy on eval_function during the very request",
+                       "(e) a constructor result whose name is already in the answer is merged into that variable: outside the model "
+                       "(`answered`) and outside the oracle (tag merge)"]
     ctx.proof_phase()
     explore(ctx, ctx.tier)
     return ctx.finish(search=lambda c: explore(c, "thorough", search=True))
@@ -704,6 +1101,25 @@ def replay(payload):
         return False
     c = f["case"]
     q = c.get("query", "")
+    if c["kind"] == "beside":
+        spec = c15.spec_from_sexp(c["dataset"])
+        tag, fail = judge_beside(BaseHandler, SSF, spec, c["items"], c["calls"], c["sel"], [tuple(o) for o in c["order"]])
+        print("%s -> %s%s" % (c["query"], tag, "" if not fail else ": %s; observed %s, expected %s" % (fail[0], str(fail[1])[:300], str(fail[2])[:300])))
+        return fail is None
+    if c["kind"] == "tables":
+        import pydap.wsgi.ssf as ssf
+        from pydap.model import BaseType, DatasetType
+        stock_before = ssf.load_functions()
+        kws, apps = [], []
+        for kw_ids in c["kws"]:
+            kw = {k: make_decoy(fid) for k, fid in kw_ids.items()}
+            kws.append(kw)
+            ds = DatasetType("d")
+            ds["a"] = BaseType("a", np.array(c["src"], dtype="i4"))
+            apps.append(SSF(BaseHandler(ds), **kw))
+        ok, obs, exp = judge_tables(ssf, apps, kws, stock_before, ssf.load_functions(), c["src"])
+        print("applications built with %s: %s" % ([sorted(k) for k in c["kws"]], "each has the stock functions plus its own" if ok else "%s; expected %s" % (obs, exp)))
+        return ok
     if c["kind"] == "transparency":
         ds = G.build(c15.spec_from_sexp(c["dataset"]))
         a, b = G.run_request(BaseHandler(ds), c["path"], q), G.run_request(SSF(BaseHandler(ds)), c["path"], q)
